@@ -44,7 +44,9 @@ def run_history(evs):
                 h, d = ev[1], ev[2]
                 hl = HLPacket(t.HLCommonHeader(h), t.Bytes(d))
                 ll = (LLHeader().with_signature(Frame.signature).with_size(hl.length + 5)
-                      .with_type(t.TYPE_ZBOSS_NCP_API_HL).with_flags(t.LLFlags.LastFrag | t.LLFlags.FirstFrag))
+                      .with_type(t.TYPE_ZBOSS_NCP_API_HL).with_flags(t.LLFlags.LastFrag | t.LLFlags.FirstFrag)
+                      # whatever the checksum field held before (a frame that was decoded, or stamped earlier), stamping replaces it
+                      .with_crc8((ev[1] * 0x9E + 0x5B) & 0xFF))
                 tasks.append(loop.create_task(proto.send(Frame(ll, hl))))
                 outstanding = True
                 loop.settle()
@@ -182,7 +184,9 @@ def run_overlap(evs):
             if ev[0] == "q":
                 hl = HLPacket(t.HLCommonHeader(ev[1]), t.Bytes(ev[2]))
                 ll = (LLHeader().with_signature(Frame.signature).with_size(hl.length + 5)
-                      .with_type(t.TYPE_ZBOSS_NCP_API_HL).with_flags(t.LLFlags.LastFrag | t.LLFlags.FirstFrag))
+                      .with_type(t.TYPE_ZBOSS_NCP_API_HL).with_flags(t.LLFlags.LastFrag | t.LLFlags.FirstFrag)
+                      # whatever the checksum field held before (a frame that was decoded, or stamped earlier), stamping replaces it
+                      .with_crc8((ev[1] * 0x9E + 0x5B) & 0xFF))
                 tasks.append(loop.create_task(proto.send(Frame(ll, hl))))
                 loop.settle()
                 collect()
